@@ -79,7 +79,7 @@ pub fn norm_path(p: &str) -> &str {
 pub const SCHEMES: [&str; 4] = ["http", "https", "ipp", "ipps"];
 pub const HOSTS: [&str; 9] = ["printer.example.com", "localhost", "192.168.1.20", "[::1]", "[2001:db8::1:631]", "h", "PRINTER.Example.COM", "a-b.c_d", "[fe80::1]"];
 pub const PORTS: [Option<&str>; 8] = [None, Some("1"), Some("80"), Some("443"), Some("631"), Some("65535"), Some("8631"), Some("0631")];
-pub const USERINFO: [Option<&str>; 6] = [None, Some("user"), Some("user:TAINTpw"), Some("us%40er:TAINT%3Apw"), Some("TAINTu:"), Some(":TAINTp")];
+pub const USERINFO: [Option<&str>; 8] = [None, Some("user"), Some("user:TAINTpw"), Some("us%40er:TAINT%3Apw"), Some("TAINTu:"), Some(":TAINTp"), Some("adm:TAINTp@ss"), Some("TAINTa@b@c:x")];
 pub const PATHS: [&str; 8] = ["", "/", "/a/b", "/printers/My%20Printer", "/ipp/print", "/a//b/", "/%7Euser/x.y-z_~", "/very/long/path/segment/segment/segment/segment/segment/segment/segment/segment/segment/end"];
 pub const QUERIES: [Option<&str>; 6] = [None, Some(""), Some("TAINTq=1"), Some("u=TAINTa@b:c"), Some("x=1&y=TAINT"), Some("TAINT/with/slash")];
 
@@ -150,6 +150,11 @@ pub fn random(rng: &mut Rng) -> Parts {
             }
             s.push(':');
             s.push_str(&word(rng, b"abc!$&'()*+,;=-._~", 0, 8));
+            if rng.chance(1, 4) {
+                // http::Uri tolerates a raw '@' inside user-info (the host starts after the LAST '@')
+                s.push('@');
+                s.push_str(&word(rng, b"abc019", 0, 4));
+            }
             s.push_str("TAINT");
             Some(s)
         }
